@@ -50,13 +50,18 @@ def avp_order_check(chk, fx, a, config):
     eng2 = new_engine(chk, fx)
     seen = {"iters": [], "recv": []}
 
+    def own(frame):
+        # ControlMessage::write itself, or a closure / std iterator consumer (for_each, fold) it runs
+        parts = frame.ctxname.split(" > ")
+        return frame.key == a.ctrl_write["key"] or (parts[0] == a.ctrl_write["name"] and not any("AVP::write" in p for p in parts[1:]))
+
     def on_call(frame, st, bb, func, args):
-        if (func.get("resolved") or func)["key"] == a.avp_write["key"] and frame.key == a.ctrl_write["key"] and not eng2.mute:
+        if (func.get("resolved") or func)["key"] == a.avp_write["key"] and own(frame) and not eng2.mute:
             r = args[0]
             seen["recv"].append((st.ntrace, r.cell, r.path[-1] if isinstance(r, VRef) and r.path else None))
 
     def on_loop(frame, head, H, res, havoc, lid):
-        if eng2.mute or frame.key != a.ctrl_write["key"]:
+        if eng2.mute or not own(frame):
             return
         for b in res["back"]:
             evs = b.events()[H.ntrace:]
